@@ -2,7 +2,10 @@
    distinct across all files (and the open gzip member) at every event boundary, provided
    the delivered message ids are distinct, the pre-existing files have distinct names and
    carry no tags.  (Inside Close the link/unlink hand-off holds the content under two names
-   for one instant; that is why this is stated at event boundaries.) *)
+   for one instant; that is why this is stated at event boundaries.  For the same reason
+   the fault schedule must not fail an unlink(2) of the hand-off: link(2) succeeded, the
+   work-dir name could not be removed, the logger exits, and the file keeps its two names
+   -- see [two_names_after_failed_unlink] in props/C19.v.) *)
 From Coq Require Import List ZArith NArith Bool Lia Permutation.
 From NSQV Require Import model.Judge model.FileOS model.FileLogger proofs.FileOSProofs proofs.FileLoggerProofs.
 Import ListNotations.
@@ -222,16 +225,33 @@ Section Unique.
 Variable c : cfg.
 Variable fs0 : fsT.
 Notation Inv := (Inv c fs0).
+Hypothesis no_unlink_fault : forall n, fault_at c FUnlink n = false.
+
+Lemma TI_fail_at : forall X s w k, TI X s -> TI X (fail_at s w k).
+Proof. intros X s w k T. exact T. Qed.
+
+Lemma TI_bump : forall X s w, TI X s -> TI X (bump s w).
+Proof. intros X s w T. exact T. Qed.
 
 Lemma TI_fatal : forall X s, TI X s -> TI X (fatal s).
 Proof. intros X s T. unfold fatal. apply TI_same_fs with (s := s); auto. Qed.
 
+Lemma TI_flush : forall X s k, TI X s -> TI X (flush c s k).
+Proof.
+  intros X s k T. unfold flush.
+  set (s1 := if gzip c then (if faulty c s FGzClose then fail_at s FGzClose k else gz_close (bump s FGzClose) k) else s).
+  assert (T1 : TI X s1).
+  { unfold s1. destruct (gzip c); auto. destruct (faulty c s FGzClose); auto.
+    apply TI_gz_close. exact T. }
+  cbv zeta. destruct (negb (running s1)); auto.
+  destruct (faulty c s1 FFsync); auto.
+  apply TI_emit_fsync. exact T1.
+Qed.
+
 Lemma TI_sync_file : forall X s, TI X s -> TI X (sync_file c s).
 Proof.
   intros X s T. unfold sync_file. destruct (out s); try (apply TI_fatal; exact T).
-  destruct (gzip c).
-  - apply TI_emit_fsync. apply TI_gz_close. exact T.
-  - apply TI_emit_fsync. exact T.
+  apply TI_flush. exact T.
 Qed.
 
 Lemma TI_fin_fold : forall X l s, TI X s -> TI X (fold_left (fun a m => emit a (OFin m)) l s).
@@ -249,14 +269,30 @@ Proof.
   - apply TI_sync_file. exact T.
 Qed.
 
+Lemma TI_link_eexist : forall X s src dst, TI X s ->
+  TI X (link_eexist c s src dst) /\ fs (link_eexist c s src dst) = fs s.
+Proof.
+  intros X s src dst T. unfold link_eexist. destruct (faulty c s FLink); split; auto.
+Qed.
+
+Lemma TI_move : forall X s src dst f, TI X s -> src <> dst ->
+  lookup (fs s) src = Some f -> lookup (fs s) dst = None -> TI X (move c s src dst).
+Proof.
+  intros X s src dst f T Hne Hs Hd. unfold move. destruct (faulty c s FLink); auto.
+  cbv zeta. unfold faulty at 1. rewrite no_unlink_fault.
+  eapply TI_same_fs; [| |eapply TI_rename with (s := s) (f := f); eauto]; reflexivity.
+Qed.
+
 Lemma TI_close_bump : forall X fuel s src i f, TI X s -> fst src = DWork ->
-  lookup (fs s) src = Some f -> TI X (close_bump fuel s src i).
+  lookup (fs s) src = Some f -> TI X (close_bump fuel c s src i).
 Proof.
   intros X. induction fuel as [|n IH]; intros s src i f T Hw Hs; simpl.
   - exact T.
   - destruct (exists_ (fs s) (DOut, with_rev (filename s) i)) eqn:Ex.
-    + apply IH with (f := f); auto.
-    + eapply TI_same_fs; [| |eapply TI_rename with (f := f); eauto]; try reflexivity.
+    + destruct (TI_link_eexist X s src (DOut, with_rev (filename s) i) T) as [T1 Hfs].
+      destruct (running (link_eexist c s src (DOut, with_rev (filename s) i))); auto.
+      apply IH with (f := f); auto. rewrite Hfs. exact Hs.
+    + eapply TI_same_fs; [| |eapply TI_move with (f := f); eauto]; try reflexivity.
       * intro H. subst src. simpl in Hw. discriminate.
       * apply exists_false. exact Ex.
 Qed.
@@ -264,22 +300,24 @@ Qed.
 Lemma TI_close_file : forall X s, Inv s -> TI X s -> TI X (close_file c s).
 Proof.
   intros X s HI T. unfold close_file. destruct (out s) as [|k|k] eqn:Ho; auto.
-  - destruct (flush_cov c fs0 s k HI Ho) as [A [_ [Hk _]]].
-    set (s1 := if gzip c then gz_close s k else s) in *.
-    assert (T1 : TI X s1) by (unfold s1; destruct (gzip c); auto; apply TI_gz_close; auto).
-    set (sf := emit s1 (OFsync k)) in *.
-    assert (Tf : TI X sf) by (apply TI_emit_fsync; exact T1).
-    destruct A as [_ [_ He]]. destruct (He k Hk) as [[f Hf] Hd].
-    set (s2 := set_out (emit sf (OClose k)) (HStale k)).
-    assert (T2 : TI X s2) by (eapply TI_same_fs; [| |exact Tf]; reflexivity).
-    destruct (use_work c) eqn:UW.
-    + unfold wdir in Hd. rewrite UW in Hd.
-      destruct (exists_ (fs s2) (DOut, snd k)) eqn:Ex.
-      * eapply TI_close_bump with (f := f); eauto.
-      * eapply TI_rename with (f := f); eauto.
-        -- intro H. rewrite H in Hd. simpl in Hd. discriminate.
-        -- apply exists_false. exact Ex.
-    + eapply TI_same_fs; [| |exact T2]; reflexivity.
+  destruct (flush_inv c fs0 s k HI Ho) as [A B]. pose proof (TI_flush X s k T) as T1.
+  cbv zeta. set (s1 := flush c s k) in *.
+  destruct (running s1) eqn:R1; cbn [negb]; auto.
+  destruct (B eq_refl) as [_ [Hk _]].
+  destruct (faulty c s1 FClose); auto.
+  destruct A as [_ [_ He]]. destruct (He k Hk) as [[f Hf] Hd].
+  set (s2 := set_out (emit (bump s1 FClose) (OClose k)) (HStale k)).
+  assert (T2 : TI X s2) by exact T1.
+  destruct (use_work c) eqn:UW.
+  + unfold wdir in Hd. rewrite UW in Hd.
+    destruct (exists_ (fs s2) (DOut, snd k)) eqn:Ex.
+    * destruct (TI_link_eexist X s2 k (DOut, snd k) T2) as [T3 Hfs].
+      destruct (running (link_eexist c s2 k (DOut, snd k))); auto.
+      eapply TI_close_bump with (f := f); eauto. rewrite Hfs. exact Hf.
+    * eapply TI_move with (f := f); eauto.
+      -- intro H. rewrite H in Hd. simpl in Hd. discriminate.
+      -- apply exists_false. exact Ex.
+  + exact T2.
 Qed.
 
 Lemma TI_open_loop : forall X fuel s, TI X s -> tags (gzbuf s) = [] \/ True -> TI X (open_loop fuel c s).
@@ -289,12 +327,14 @@ Proof.
   - destruct (use_work c && exists_ (fs s) (DOut, with_rev (filename s) (rev_ s))).
     + apply IH; auto.
     + set (k := (wdir c, with_rev (filename s) (rev_ s))).
+      destruct (faulty c s FOpen); auto.
+      set (sb := bump s FOpen).
       destruct (excl_mode c && exists_ (fs s) k).
       * apply IH; auto.
       * set (o := OCreate k (excl_mode c) (negb (excl_mode c)) false true).
-        assert (T1 : TI X (emit s o)) by (apply TI_emit_create; exact T).
+        assert (T1 : TI X (emit sb o)) by (apply TI_emit_create; exact T).
         (* the new gzip writer starts empty: tags of the old buffer are dropped *)
-        assert (T2 : forall sz, TI X (set_size (set_gzbuf (set_out (emit s o) (HOpen k)) []) sz)).
+        assert (T2 : forall sz, TI X (set_size (set_gzbuf (set_out (emit sb o) (HOpen k)) []) sz)).
         { intro sz. destruct T1 as [A [B C]]. split; [exact A|]. unfold alltags in *. simpl gzbuf. simpl tags.
           rewrite app_nil_r. split.
           - apply NoDup_app_l in B. exact B.
@@ -328,7 +368,11 @@ Lemma TI_write_msg : forall X s m, TI X s -> ~ In (fst m) X -> TI (fst m :: X) (
 Proof.
   intros X s m T Hi. unfold write_msg. destruct (out s) as [|k|k].
   - apply TI_weaken with (X := X); [intros x Hx; right; exact Hx | apply TI_fatal; exact T].
-  - eapply TI_same_fs with (s := if gzip c then set_gzbuf s (gzbuf s ++ [line m]) else emit s (OWrite k (line m)));
+  - destruct (faulty c s FWrite).
+    { apply TI_weaken with (X := X); [intros x Hx; right; exact Hx |].
+      apply TI_fail_at. destruct (gzip c); auto. apply TI_emit_write_untagged. exact T. }
+    cbv zeta.
+    eapply TI_same_fs with (s := if gzip c then set_gzbuf s (gzbuf s ++ [line m]) else emit s (OWrite k (line m)));
       try (destruct (gzip c); reflexivity).
     destruct (gzip c).
     + destruct T as [A [B C]]. split; [exact A|]. unfold alltags in *. simpl gzbuf. simpl fs.
@@ -406,12 +450,12 @@ End Unique.
 (* At every event boundary of every run with distinct message ids, over pre-existing files
    with distinct names and no tags: file names are distinct and no message tag occurs twice
    anywhere (files' durable and volatile parts, open gzip member). *)
-Theorem tags_unique : forall c fs0 es,
+Theorem tags_unique : forall c fs0 es, (forall n, fault_at c FUnlink n = false) ->
   NoDup (keys fs0) -> fs_tags fs0 = [] -> NoDup (flat_map ev_id es) ->
   NoDup (keys (fs (run c fs0 es))) /\ NoDup (alltags (run c fs0 es)).
 Proof.
-  intros c fs0 es K U ND.
-  destruct (TI_fold c fs0 es [] (init fs0)) as [Y [A [B _]]]; auto.
+  intros c fs0 es NUF K U ND.
+  destruct (TI_fold c fs0 NUF es [] (init fs0)) as [Y [A [B _]]]; auto.
   - apply init_inv.
   - split; [exact K|]. unfold alltags. simpl. rewrite U. simpl. split; [constructor | intros x []].
 Qed.
@@ -434,13 +478,13 @@ Proof.
     + destruct (IH _ _ _ _ _ _ Hne H I2) as [Hl | Hr]; auto. left. rewrite fs_tags_cons. apply in_or_app. right. exact Hl.
 Qed.
 
-Theorem one_file : forall c fs0 es k1 k2 f1 f2 i,
+Theorem one_file : forall c fs0 es k1 k2 f1 f2 i, (forall n, fault_at c FUnlink n = false) ->
   NoDup (keys fs0) -> fs_tags fs0 = [] -> NoDup (flat_map ev_id es) ->
   lookup (fs (run c fs0 es)) k1 = Some f1 -> lookup (fs (run c fs0 es)) k2 = Some f2 ->
   In i (tags (content f1)) -> In i (tags (content f2)) -> k1 = k2.
 Proof.
-  intros c fs0 es k1 k2 f1 f2 i K U ND L1 L2 I1 I2.
-  destruct (tags_unique c fs0 es K U ND) as [KK TT].
+  intros c fs0 es k1 k2 f1 f2 i NUF K U ND L1 L2 I1 I2.
+  destruct (tags_unique c fs0 es NUF K U ND) as [KK TT].
   destruct (key_eq_dec k1 k2) as [E | Hne]; auto. exfalso.
   apply NoDup_app_l in TT.
   destruct (lookup_some_split _ _ _ L1) as [a1 [a2 [E1 N1]]].
@@ -462,13 +506,13 @@ Proof.
 Qed.
 
 (* every finished message's line is in the durable part of exactly one file *)
-Theorem exactly_one_file : forall c fs0 es m,
+Theorem exactly_one_file : forall c fs0 es m, (forall n, fault_at c FUnlink n = false) ->
   NoDup (keys fs0) -> fs_tags fs0 = [] -> NoDup (flat_map ev_id es) ->
   In m (finished (run c fs0 es)) ->
   exists k f, lookup (fs (run c fs0 es)) k = Some f /\ In (line m) (f_dur f) /\
     forall k' f', lookup (fs (run c fs0 es)) k' = Some f' -> In (fst m) (tags (content f')) -> k' = k.
 Proof.
-  intros c fs0 es m K U ND Hm.
+  intros c fs0 es m NUF K U ND Hm.
   destruct (run_inv c fs0 es) as [[_ [_ [_ HP]]] _].
   destruct (HP m Hm) as [k [f [Hk Hin]]]. exists k, f. split; auto. split; auto.
   intros k' f' Hk' Hin'. eapply one_file; eauto.
